@@ -50,6 +50,7 @@ COMMON_ASSUME = [
 PROPS = {}
 
 NOT_APPLICABLE = {
+    "C07": "which HTML attribute yields which link is decided inside goquery/cascadia/x-net-html on a DOM; an abstract-DOM model of those libraries was not built, and without it the extractor's dispatch cannot be executed symbolically. The downstream part (hops, via, depth limit, anchors queued whenever the hop limit allows) is decided by the C06 check (DESIGN.md 'As built' D).",
     "C04": "crash/restart durability lives in SQLite (a wasm build run by wazero), the file system and a second process reopening partially written gzip members; none of that exists in an SSA-level encoding of Zeno's Go code and the decisive behaviour is carried by SQL text executed inside that engine (DESIGN.md section 7)",
 }
 
